@@ -90,6 +90,13 @@ CHECKS = {
         note="encode_frame is an abstract callee; Fragments units are BOUNDED (listed under coverage.bounded_units). Total-length "
              "attribute and frame_pixel_data are not covered.",
     ),
+    "C20": dict(
+        technique="bounded native enumeration of the real RLE adapter against a reference Annex G encoder (stand-in: neither Kani nor Verus reaches this code)",
+        text="Not a proof: 288 small images (all combinations of bit depth, samples per pixel, 1-3 pixels, 1-2 frames, four run splits, three "
+             "contents) are decoded by the real adapter and compared with the specified output. Chosen because the contract tools cannot "
+             "process this function (measured), and stated as such.",
+        note="Bounded stand-in outside the deductive family; images beyond the bound and malformed input are uncovered.",
+    ),
     "C25": dict(
         technique="Verus contracts on the extracted chunk writers (all item lengths) and on the framing head of read_pdu (declared cut)",
         text="Proof that every length-prefixed item is written with a length that matches its content or the write fails, and that the "
@@ -126,7 +133,6 @@ NOT_APPLICABLE = {
     "C05": "check not built yet in this session (planned in DESIGN.md section 7); not claimed until its check runs",
     "C09": "check not built yet in this session (planned in DESIGN.md section 7); not claimed until its check runs",
     "C17": "check not built yet in this session (planned in DESIGN.md section 7); not claimed until its check runs",
-    "C20": "check not built yet in this session (planned in DESIGN.md section 7); not claimed until its check runs",
     "C22": "check not built yet in this session (planned in DESIGN.md section 7); not claimed until its check runs",
     "C27": "check not built yet in this session (planned in DESIGN.md section 7); not claimed until its check runs",
     "C31": "check not built yet in this session (planned in DESIGN.md section 7); not claimed until its check runs",
